@@ -426,3 +426,45 @@ Qed.
 (* the statement of F23 itself: a link to a regular file is visited like a regular file of that name *)
 Corollary walk_link_file s : walk (Link s LFile) = walk (File s).
 Proof. reflexivity. Qed.
+
+(* ---------------------------------------------------------------- swapping the two .lp arguments *)
+
+(* strong equivalence: the first .lp is left, the second right *)
+Theorem swap_roles_strong a b :
+  kind_of a = KProgram -> kind_of b = KProgram ->
+  left (sort_paths [b; a]) = Some b /\ right (sort_paths [b; a]) = Some a /\
+  left (sort_paths [a; b]) = Some a /\ right (sort_paths [a; b]) = Some b.
+Proof.
+  intros Ha Hb. unfold sort_paths, sort_entries. cbn [map fold_left fst snd]. rewrite Ha, Hb.
+  repeat split; reflexivity.
+Qed.
+
+(* external equivalence: two .lp files followed by files of other kinds.  Without a .spec file the
+   first .lp is the specification (a program used as specification: inl) and the second the program:
+   swapping the two exchanges the roles.  With a .spec file that file is the specification, the FIRST
+   .lp the program and the second .lp is ignored: swapping the two replaces the program by the
+   ignored file.  User guide and proof outline are unaffected. *)
+Theorem swap_roles_external a b rest :
+  kind_of a = KProgram -> kind_of b = KProgram -> (forall y, In y rest -> kind_of y <> KProgram) ->
+  let f := sort_paths (a :: b :: rest) in
+  let f' := sort_paths (b :: a :: rest) in
+  user_guide f = user_guide f' /\ proof_outline f = proof_outline f' /\
+  match filter (is_kind KSpecification) rest with
+  | [] => specification f = Some (inl a) /\ program f = Some b /\
+          specification f' = Some (inl b) /\ program f' = Some a
+  | s :: _ => specification f = Some (inr s) /\ program f = Some a /\
+              specification f' = Some (inr s) /\ program f' = Some b
+  end.
+Proof.
+  intros Ha Hb Hr. cbv zeta.
+  assert (Hp : filter (is_kind KProgram) rest = []).
+  { apply filter_none. intros y Hy. specialize (Hr y Hy). unfold is_kind. destruct (kind_of y); cbn; congruence. }
+  pose proof (roles_first (a :: b :: rest)) as R. pose proof (roles_first (b :: a :: rest)) as R'.
+  cbv zeta in R, R'. cbn [filter] in R, R'.
+  unfold roles_of in R, R'.
+  unfold is_kind in R, R'. rewrite Ha, Hb in R, R'. cbn [kind_eqb] in R, R'.
+  fold (is_kind KProgram) (is_kind KSpecification) (is_kind KUserGuide) (is_kind KProofOutline) in R, R'.
+  rewrite Hp in R, R'. injection R as _ _ Rs Rp Ru Ro. injection R' as _ _ Rs' Rp' Ru' Ro'.
+  split; [congruence|]. split; [congruence|].
+  destruct (filter (is_kind KSpecification) rest) as [|s l]; cbn in *; auto.
+Qed.
